@@ -332,6 +332,22 @@ func rulesC10(c *Ctx) {
 			}
 		}
 		c.Check(rejected, "servePOST:duplicate-not-registered", sp, scan, "a POST with a duplicate in-flight id returns without registering anything")
+		// ... and nothing was registered before the refusal either: the whole batch is scanned first, registration starts
+		// only when no id is in flight (an id registered by the same loop that later refuses the POST stays behind: no
+		// stream will ever answer it, and every later use of that id is refused as a duplicate)
+		for _, cv := range g.condVertices() {
+			cond := g.Node(cv - 1).(ast.Expr)
+			if id, ok := ast.Unparen(cond).(*ast.Ident); ok && scan != nil && sp.ObjOf(id) == sp.ObjOf(scan.(*ast.AssignStmt).Lhs[1]) {
+				t, _ := g.BranchTargets(cv - 1)
+				partial := false
+				for _, w := range inserts {
+					if g.ReachableFrom(g.VertexOf(w))[t] {
+						partial = true
+					}
+				}
+				c.Check(!partial, "servePOST:no-partial-registration", sp, scan, "no registration can precede the refusal of a duplicate id")
+			}
+		}
 	})
 
 	c.Rule("R-C10-4", "there is no cross-session mutable state: no package-level variable of reference type in mcp is written outside init", func() {
